@@ -554,20 +554,27 @@ func (c *Compiler[_, _]) pushControlFlow(start int) *controlFlow {
 }
 
 func (c *Compiler[_, _]) popControlFlow(endOffset int) {
-	lastIndex := len(c.controlFlows) - 1
-	l := c.controlFlows[lastIndex]
-	c.controlFlows[lastIndex] = controlFlow{}
-	c.controlFlows = c.controlFlows[:lastIndex]
+	l := c.discardControlFlow()
 
 	for _, breakOffset := range l.breaks {
 		c.patchJump(breakOffset, endOffset)
 	}
+}
+
+// discardControlFlow pops the current control flow without patching its pending jumps.
+func (c *Compiler[_, _]) discardControlFlow() controlFlow {
+	lastIndex := len(c.controlFlows) - 1
+	l := c.controlFlows[lastIndex]
+	c.controlFlows[lastIndex] = controlFlow{}
+	c.controlFlows = c.controlFlows[:lastIndex]
 
 	var previousControlFlow *controlFlow
 	if lastIndex > 0 {
 		previousControlFlow = &c.controlFlows[lastIndex-1]
 	}
 	c.currentControlFlow = previousControlFlow
+
+	return l
 }
 
 func (c *Compiler[_, _]) pushReturns() {
@@ -1648,6 +1655,12 @@ func (c *Compiler[_, _]) VisitWhileStatement(statement *ast.WhileStatement) (_ s
 
 	var endOffset int
 	defer func() {
+		if r := recover(); r != nil {
+			// The compilation of the statement was aborted (e.g. by a metering error):
+			// the end offset is unknown, so there is nothing to patch. Keep the original panic.
+			c.discardControlFlow()
+			panic(r)
+		}
 		c.popControlFlow(endOffset)
 	}()
 
@@ -1730,6 +1743,12 @@ func (c *Compiler[_, _]) VisitForStatement(statement *ast.ForStatement) (_ struc
 
 	var endOffset int
 	defer func() {
+		if r := recover(); r != nil {
+			// The compilation of the statement was aborted (e.g. by a metering error):
+			// the end offset is unknown, so there is nothing to patch. Keep the original panic.
+			c.discardControlFlow()
+			panic(r)
+		}
 		c.popControlFlow(endOffset)
 	}()
 
@@ -1847,6 +1866,12 @@ func (c *Compiler[_, _]) VisitSwitchStatement(statement *ast.SwitchStatement) (_
 	c.pushControlFlow(-1)
 	var endOffset int
 	defer func() {
+		if r := recover(); r != nil {
+			// The compilation of the statement was aborted (e.g. by a metering error):
+			// the end offset is unknown, so there is nothing to patch. Keep the original panic.
+			c.discardControlFlow()
+			panic(r)
+		}
 		c.popControlFlow(endOffset)
 	}()
 
